@@ -22,11 +22,12 @@ open Model.Regex Spec.Lang
 /-- `_next_char` + the escape handling of `eat()` -/
 def eatAny : List Int → Except Err (Int × List Int)
   | [] => .error .ValueError                      -- "At end of string!"
-  | 92 :: rest =>
-    (match rest with
-     | [] => .error .ValueError
-     | c :: rest' => .ok (c, rest'))
-  | c :: rest => .ok (c, rest)
+  | c :: rest =>
+    if c = 92 then                                 -- backslash: take the next character
+      (match rest with
+       | [] => .error .ValueError
+       | c' :: rest' => .ok (c', rest'))
+    else .ok (c, rest)
 
 /-- `eat(c)` -/
 def eatC (c : Int) : List Int → Except Err (List Int)
@@ -35,38 +36,42 @@ def eatC (c : Int) : List Int → Except Err (List Int)
 
 /-- `_parse_modifier` -/
 def modifier (e : Re) : List Int → Re × List Int
-  | 42 :: rest => (.star e, rest)                         -- '*'
-  | 43 :: rest => (concatenate e (.star e), rest)         -- '+'
-  | 63 :: rest => (logicalOr e .eps, rest)                -- '?'
-  | inp => (e, inp)
+  | [] => (e, [])
+  | c :: rest =>
+    if c = 42 then (.star e, rest)                           -- '*'
+    else if c = 43 then (concatenate e (.star e), rest)      -- '+'
+    else if c = 63 then (logicalOr e .eps, rest)             -- '?'
+    else (e, c :: rest)
+
+/-- `peek(c)` -/
+def peek (c : Int) : List Int → Bool
+  | [] => false
+  | a :: _ => decide (a = c)
 
 /-- the `while not self.peek("]")` loop of `_parse_set` -/
 def setLoop : Nat → List Int → List (Int × Int) → Except Err (List (Int × Int) × List Int)
   | 0, _, _ => .error .Fuel
   | fuel + 1, inp, acc =>
-    match inp with
-    | 93 :: _ => .ok (acc, inp)
-    | _ =>
+    if peek 93 inp then .ok (acc, inp)
+    else
       match eatAny inp with
       | .error e => .error e
       | .ok (start, r1) =>
-        match r1 with
-        | 45 :: r2 =>
-          (match eatAny r2 with
+        if peek 45 r1 then
+          (match eatAny (r1.drop 1) with                      -- eat("-"); end = eat()
            | .error e => .error e
            | .ok (stop, r3) =>
              if start < stop then setLoop fuel r3 (acc ++ [(start, stop)])
              else .error .ValueError)                     -- "Start must be before end"
-        | _ => setLoop fuel r1 (acc ++ [(start, start)])
+        else setLoop fuel r1 (acc ++ [(start, start)])
 
 /-- `_parse_set`, called with the input at `[` -/
 def parseSet (fuel : Nat) (inp : List Int) : Except Err (Re × List Int) :=
   match eatC 91 inp with
   | .error e => .error e
   | .ok r0 =>
-    let (complement, r1) := match r0 with
-      | 94 :: r => (true, r)
-      | _ => (false, r0)
+    let complement := peek 94 r0
+    let r1 := if complement then r0.drop 1 else r0
     match setLoop fuel r1 [] with
     | .error e => .error e
     | .ok (ranges, r2) =>
@@ -90,12 +95,11 @@ def parseOr : Nat → List Int → Except Err (Re × List Int)
 def orLoop : Nat → Re → List Int → Except Err (Re × List Int)
   | 0, _, _ => .error .Fuel
   | fuel + 1, acc, inp =>
-    match inp with
-    | 124 :: r =>
-      (match parseConcat fuel r with
+    if peek 124 inp then
+      (match parseConcat fuel (inp.drop 1) with
        | .error e => .error e
        | .ok (e, r') => orLoop fuel (logicalOr acc e) r')
-    | _ => .ok (acc, inp)
+    else .ok (acc, inp)
 
 /-- `_parse_concatenation` -/
 def parseConcat : Nat → List Int → Except Err (Re × List Int)
@@ -109,33 +113,29 @@ def parseConcat : Nat → List Int → Except Err (Re × List Int)
 def concatLoop : Nat → Re → List Int → Except Err (Re × List Int)
   | 0, _, _ => .error .Fuel
   | fuel + 1, acc, inp =>
-    match inp with
-    | [] => .ok (acc, inp)
-    | c :: _ =>
-      if c = 124 ∨ c = 41 then .ok (acc, inp)
-      else
-        match parseElement fuel inp with
-        | .error e => .error e
-        | .ok (e, r) => concatLoop fuel (concatenate acc e) r
+    if inp.isEmpty || peek 124 inp || peek 41 inp then .ok (acc, inp)
+    else
+      match parseElement fuel inp with
+      | .error e => .error e
+      | .ok (e, r) => concatLoop fuel (concatenate acc e) r
 
 /-- `_parse_element` -/
 def parseElement : Nat → List Int → Except Err (Re × List Int)
   | 0, _ => .error .Fuel
   | fuel + 1, inp =>
-    match inp with
-    | 40 :: r =>                                           -- '(' _parse_top ')'
-      (match parseOr fuel r with
+    if peek 40 inp then                                    -- '(' _parse_top ')'
+      (match parseOr fuel (inp.drop 1) with
        | .error e => .error e
        | .ok (e, r1) =>
          match eatC 41 r1 with
          | .error e => .error e
          | .ok r2 => .ok (modifier e r2))
-    | 91 :: _ =>                                           -- '['
+    else if peek 91 inp then                               -- '['
       (match parseSet fuel inp with
        | .error e => .error e
        | .ok (e, r1) => .ok (modifier e r1))
-    | 46 :: r => .ok (modifier SIGMA r)                     -- '.'
-    | _ =>
+    else if peek 46 inp then .ok (modifier SIGMA (inp.drop 1))   -- '.'
+    else
       (match eatAny inp with                                -- `_parse_symbol`
        | .error e => .error e
        | .ok (c, r) => .ok (modifier (symbol c) r))
